@@ -172,21 +172,21 @@ theorem enc_word {v : PyVal} {p : Pre} (hg : inG0 v = true) (h : pre v = .ok p) 
       conv => lhs; rw [hcons]
       simp [fixedWord, List.append_assoc]
   | dict i xs =>
-    obtain ⟨ps, s, _, _, rfl⟩ := pre_dict_inv h
+    obtain ⟨ps, _, rfl⟩ := pre_dict_inv h
     refine ⟨_, _, rfl, ?_⟩
     unfold WordShape valWord
     simp only [kindOf]
-    refine ⟨fixedWord_no_colon (by omega), (afterWord HashLits.dictOpen).tail ++ evalPureList H (mapContents s ++ [lit HashLits.dictClose]), ?_⟩
+    refine ⟨fixedWord_no_colon (by omega), (afterWord HashLits.dictOpen).tail ++ evalPureList H (mapContents (sortItems ps) ++ [lit HashLits.dictClose]), ?_⟩
     rw [List.cons_append, evalPureList_lit]
     conv => lhs; rw [word_split HashLits.dictOpen, head_cons_of_head? hdict]
     simp [fixedWord, List.append_assoc]
   | obj i c xs =>
-    obtain ⟨ps, s, _, _, rfl⟩ := pre_obj_inv h
+    obtain ⟨ps, _, rfl⟩ := pre_obj_inv h
     refine ⟨_, _, rfl, ?_⟩
     simp only [inG0, clsObjOK, Bool.and_eq_true] at hg
     unfold WordShape valWord
     simp only []
-    refine ⟨not_contains_not_mem hg.1.1.1, HashLits.objOpen.tail ++ evalPureList H (mapContents s ++ [lit HashLits.objClose]), ?_⟩
+    refine ⟨not_contains_not_mem hg.1.1.1, HashLits.objOpen.tail ++ evalPureList H (mapContents (sortItems ps) ++ [lit HashLits.objClose]), ?_⟩
     rw [List.cons_append, evalPureList_lit]
     conv => lhs; rw [head_cons_of_head? hobj]
     simp [List.append_assoc]
